@@ -1,29 +1,53 @@
 (* C31 — generated output files are all-or-nothing. *)
-From TxV Require Import Core.Base Gen.SrcFs Model.Fs Proofs.FsProofs.
+From TxV Require Import Core.Base Model.FsDefs Gen.SrcFs Model.Fs Proofs.FsProofs.
 
-(* For every list of writes and every failure point (open, the k-th write with or without
-   partial data, flush/close, replace): after the run no temporary file remains and the
-   target is either complete (no exception) or exactly what it was before the run —
-   absent if it was absent.  Re-proved against the protocol facts translated from export.py. *)
-Theorem C31_atomic : forall f chunks fl, temp f = None ->
-  let '(f', raised) := export f chunks fl in
+(* For every list of writes of the generator, every buffering policy (which of the write calls reach the
+   operating system, which only fill the buffer; close() flushes the rest) and every failure point (open, the
+   e-th low-level write - once or persistently, with or without part of its data reaching the file -
+   including the write made by the flush inside close(), close itself, os.replace): after the run no
+   temporary file remains and the target is either complete (no exception) or exactly what it was before the
+   run — absent if it was absent; and the run raises exactly when the failure point is reached.
+   `export` interprets the protocol translated from textx/export.py (Gen/SrcFs.v: order and nesting of open /
+   write / close / os.replace / cleanup), so the statement is re-proved against the current source. *)
+Theorem C31_atomic : forall f chunks sched fl, temp f = None ->
+  let '(f', raised) := export f chunks sched fl in
   temp f' = None /\
   (if raised then target f' = target f else target f' = Some (complete chunks)) /\
-  (raised = false <-> fl = NoFailure \/ (exists k p, fl = AtWrite k p /\ length chunks <= k)).
+  (raised = false <-> fl = NoFailure \/ (exists e p q, fl = AtFlush e p q /\ n_events chunks sched <= e)).
 Proof. exact export_atomic. Qed.
 Print Assumptions C31_atomic.
 
-Theorem C31_rerun : forall chunks fl chunks',
+(* the instance for a byte buffer of any capacity *)
+Theorem C31_atomic_buffered : forall cap sizes f chunks fl, temp f = None ->
+  let '(f', raised) := export f chunks (sched_of_buffer cap sizes 0) fl in
+  temp f' = None /\ (if raised then target f' = target f else target f' = Some (complete chunks)).
+Proof. exact export_atomic_buffered. Qed.
+Print Assumptions C31_atomic_buffered.
+
+Theorem C31_rerun : forall chunks sched fl chunks' sched',
   let f0 := {| target := None; temp := None |} in
-  let '(f1, raised) := gen_file false f0 chunks fl in
+  let '(f1, raised) := gen_file false f0 chunks sched fl in
   raised = true ->
-  gen_file false f1 chunks' NoFailure = ({| target := Some (complete chunks'); temp := None |}, false).
+  gen_file false f1 chunks' sched' NoFailure = ({| target := Some (complete chunks'); temp := None |}, false).
 Proof. exact rerun_regenerates. Qed.
 Print Assumptions C31_rerun.
 
+(* the order of close and os.replace is what the theorem rests on: with os.replace inside the `with open`
+   block a failing flush at close leaves a truncated target *)
+Theorem C31_order_matters : writes_to_temp = true ->
+  run early_replace {| target := None; temp := None |} [0; 1; 2] [] (AtFlush 0 true false)
+  = ({| target := Some []; temp := None |}, true).
+Proof. exact early_replace_not_atomic. Qed.
+Print Assumptions C31_order_matters.
+
 Example C31_nonvacuous :
-  export {| target := None; temp := None |} [1;2;3] (AtWrite 1 true) = ({| target := None; temp := None |}, true) /\
-  export {| target := Some [Chunk 9]; temp := None |} [1;2;3] AtClose = ({| target := Some [Chunk 9]; temp := None |}, true) /\
-  export {| target := None; temp := None |} [1;2;3] NoFailure = ({| target := Some [Chunk 1; Chunk 2; Chunk 3]; temp := None |}, false).
+  (* everything buffered, the flush at close fails (disk full) *)
+  export {| target := None; temp := None |} [1;2;3] [] (AtFlush 0 true true) = ({| target := None; temp := None |}, true) /\
+  (* second low-level write of three fails once, part of the data written *)
+  export {| target := Some [Chunk 9]; temp := None |} [1;2;3] [FlushAll; FlushKeep; Buf] (AtFlush 1 false true) = ({| target := Some [Chunk 9]; temp := None |}, true) /\
+  export {| target := Some [Chunk 9]; temp := None |} [1;2;3] [Buf; FlushKeep] AtClose = ({| target := Some [Chunk 9]; temp := None |}, true) /\
+  n_events [1;2;3] [FlushAll; FlushKeep; Buf] = 3 /\
+  export {| target := None; temp := None |} [1;2;3] [FlushAll; FlushKeep; Buf] (AtFlush 3 true true) = ({| target := Some [Chunk 1; Chunk 2; Chunk 3]; temp := None |}, false) /\
+  export {| target := None; temp := None |} [1;2;3] [Buf; FlushKeep] NoFailure = ({| target := Some [Chunk 1; Chunk 2; Chunk 3]; temp := None |}, false).
 Proof. vm_compute. repeat split; reflexivity. Qed.
 Print Assumptions C31_nonvacuous.
